@@ -2,7 +2,11 @@ package xsync
 
 import (
 	"context"
+	"reflect"
 	"sync"
+	"sync/atomic"
+	"time"
+	"unsafe"
 )
 
 //verif:pkg ./xsync
@@ -57,6 +61,93 @@ func (l *vLocker) entered() int {
 		}
 	}
 	return n
+}
+
+
+// native replay only: the window inside Signal (between giving up the read lock and whatever the
+// fallback does next) is a few nanoseconds wide. vAmplifySignalWindow holds it open the way a
+// debugger would: both waiters are paused right after releasing the lock (gated Locker), Signal 1
+// leaves its token, and while the harness holds the condition variable's internal RWMutex for
+// reading, Signal 2 runs into the occupied slot and stalls where its fallback wants the write
+// lock; waiter A is let go and takes the token, the read lock is dropped, Signal 2 finishes, waiter
+// B is let go - and must wake. The internal mutex is found by reflection (field "m" of type
+// sync.RWMutex); with another representation the amplification is skipped, never a build error.
+type vGateLocker struct {
+	mu    sync.Mutex
+	gates chan chan struct{}
+}
+
+func (l *vGateLocker) Lock() { l.mu.Lock() }
+func (l *vGateLocker) Unlock() {
+	l.mu.Unlock()
+	g := make(chan struct{})
+	l.gates <- g
+	<-g
+}
+
+func vFieldRW(c *ContextCond) (*sync.RWMutex, bool) {
+	f := reflect.ValueOf(c).Elem().FieldByName("m")
+	if !f.IsValid() || f.Type() != reflect.TypeOf(sync.RWMutex{}) {
+		return nil, false
+	}
+	return (*sync.RWMutex)(unsafe.Pointer(f.UnsafeAddr())), true
+}
+
+var vAmplifiedCond int
+
+func vAmplifySignalWindow() bool {
+	if vAmplifiedCond >= 3 {
+		return false
+	}
+	vAmplifiedCond++
+	L := &vGateLocker{gates: make(chan chan struct{}, 4)}
+	c := NewContextCond(L)
+	rw, ok := vFieldRW(c)
+	if !ok {
+		return false
+	}
+	var woken int32
+	for i := 0; i < 2; i++ {
+		go func() {
+			L.Lock()
+			if c.Wait(context.Background()) == nil {
+				atomic.AddInt32(&woken, 1)
+				L.mu.Unlock()
+			}
+		}()
+	}
+	gA, gB := <-L.gates, <-L.gates // both waiters have released the lock and are held before the select
+	c.Signal()
+	rw.RLock()
+	done := make(chan struct{})
+	go func() { c.Signal(); close(done) }()
+	pending := false
+	for deadline := time.Now().Add(2 * time.Second); time.Now().Before(deadline); {
+		if rw.TryRLock() { // succeeds as long as no writer is waiting
+			rw.RUnlock()
+			time.Sleep(50 * time.Microsecond)
+			continue
+		}
+		pending = true
+		break
+	}
+	close(gA)
+	if pending {
+		for deadline := time.Now().Add(2 * time.Second); atomic.LoadInt32(&woken) < 1 && time.Now().Before(deadline); {
+			time.Sleep(50 * time.Microsecond)
+		}
+	}
+	rw.RUnlock()
+	<-done
+	close(gB)
+	for deadline := time.Now().Add(2 * time.Second); atomic.LoadInt32(&woken) < 2; {
+		if time.Now().After(deadline) {
+			c.Broadcast() // let the sleeper go
+			return pending
+		}
+		time.Sleep(50 * time.Microsecond)
+	}
+	return false
 }
 
 // VerifCondWakeups: k goroutines enter Wait; once all have released the lock the signaller
@@ -170,6 +261,9 @@ func VerifCondWakeups(k int, m int, holdL int, cancelOne int, earlier int) {
 	}
 	if cancelOne == 0 {
 		vAssert(nWoke >= want, "signal/wakes-at-least-min-k-m")
+		if vNative() && k == 2 && m == 2 && earlier == 0 {
+			vAssert(!vAmplifySignalWindow(), "signal/wakes-at-least-min-k-m")
+		}
 	} else {
 		// waiter 0 may take either exit, but it is never parked once its context is cancelled,
 		// and if it reports the context error the wakeups must have reached the others
